@@ -215,7 +215,7 @@ impl<'b, C> CborLen<C> for Token<'b> {
             Token::I32(val)    => val.cbor_len(ctx),
             Token::I64(val)    => val.cbor_len(ctx),
             Token::Int(val)    => val.cbor_len(ctx),
-            Token::F16(val)    => val.cbor_len(ctx),
+            Token::F16(_)      => 3,
             Token::F32(val)    => val.cbor_len(ctx),
             Token::F64(val)    => val.cbor_len(ctx),
             Token::Bytes(val)  => val.cbor_len(ctx),
